@@ -17,7 +17,8 @@ import enum
 
 from harness import core, progs, tl
 from harness import universe as U
-from harness.oracles import deep_same, diff_bucket, exc_bucket, same_up_to_duration_float, snapshot, why_different
+from harness.oracles import (deep_same, diff_bucket, exc_bucket, poison_in_place, same_up_to_duration_float, settable_positions,
+                             snapshot, why_different)
 
 ID = "C01"
 RULE = ("programs from the type-spec grammar of U (depth <= 4 quick / 6 thorough, 2 modules) x 8 valid values; "
@@ -268,6 +269,42 @@ def check_value(p, v, col, via: str):
         col.violation("input-unchanged", case(), "marshal modified its input", bucket=bucket_of(spec, v))
 
 
+def check_retry(p, v, col, pick: int):
+    """A call that fails on an invalid member - the caller handles the error and repairs that very object - and the same call
+    again: the repaired value is a valid v like any other, its round trip must be what it is for a value nobody failed on
+    before. Both directions: the value (marshal) and its wire form (unmarshal)."""
+    T, mat = p.T, p.mat
+    vsrc = p.src(v)
+    k0, m0 = tl.call(tl.marshal, v, t=T)
+    if k0 == "exc":
+        return
+    k1, u0 = tl.call(tl.unmarshal, T, m0)
+    for direction, obj, call, want in (("marshal", v, lambda o: tl.call(tl.marshal, o, t=T), (k0, snapshot(m0) if k0 == "ok" else None)),
+                                       ("unmarshal", m0, lambda o: tl.call(tl.unmarshal, T, o), (k1, snapshot(u0) if k1 == "ok" else None))):
+        if want[0] != "ok":
+            continue
+        positions = settable_positions(obj)
+        if not positions:
+            continue
+        pos = positions[pick % len(positions)]
+        undo = poison_in_place(pos)
+        if undo is None:
+            continue
+        col.ev()
+        kf, _rf = call(obj)
+        undo()
+        col.label(f"retry:first-call-{'failed' if kf == 'exc' else 'passed'}")
+        k2, r2 = call(obj)
+        if kf == "exc":
+            col.nt(p.key + vsrc + direction + "retry")
+        got = (k2, snapshot(r2) if k2 == "ok" else tl.exc_name(r2))
+        if got != want:
+            col.violation("round-trip-after-handled-failure", p.case(value=vsrc, retry=direction, pick=pick),
+                          f"T={mat.root_expr}: {direction} of a value failed on an invalid member, the member was repaired in place, "
+                          f"the same call then {'raised ' + str(got[1]) if k2 == 'exc' else 'returned something else'} (a fresh equal value: fine)",
+                          bucket=f"{direction}|{'raises' if k2 == 'exc' else 'differs'}")
+
+
 def per_program(p):
     col = p.col
     try:
@@ -278,6 +315,8 @@ def per_program(p):
     for i in range(8):
         v = p.draw(vs)
         check_value(p, v, col, "functional" if i % 2 == 0 else "objects")
+        if i in (2, 5):
+            check_retry(p, v, col, p.draw(core.st.integers(0, 10 ** 6)))
 
 
 def plan(tier, seed):
@@ -302,6 +341,9 @@ def run_shard(shard, col):
 def replay(clause, case, col):
     def per_case(p):
         v = p.mat.eval(case["value"])
+        if case.get("retry"):
+            check_retry(p, v, col, case["pick"])
+            return
         check_value(p, v, col, case.get("via", "functional"))
 
     progs.replay_program(case, col, per_case)
